@@ -28,6 +28,16 @@ Theorem C20_strip_any_map_order : forall order s,
 Proof. exact strip_raw_any_order. Qed.
 Print Assumptions C20_strip_any_map_order.
 
+(* nothing is added or reordered, and ordinary text - every byte that is not a control
+   byte, a digit or a comma - is untouched *)
+Theorem C20_strip_subsequence : forall s, subseq (strip_raw s) s.
+Proof. exact strip_raw_subseq. Qed.
+Print Assumptions C20_strip_subsequence.
+
+Theorem C20_strip_text_untouched : forall s, plain_text (strip_raw s) = plain_text s.
+Proof. exact strip_raw_plain. Qed.
+Print Assumptions C20_strip_text_untouched.
+
 (* ---- Fmt: text without braces is left unchanged (either brace missing is enough) ---- *)
 
 Theorem C20_fmt_identity : forall s, brace_free s -> fmt s = s.
@@ -54,6 +64,13 @@ Theorem C20_fmt_no_open : forall ps,
   lits_ok no_open ps -> Forall known1 ps -> fmt (render ps) = expected ps.
 Proof. exact fmt_pieces. Qed.
 Print Assumptions C20_fmt_no_open.
+
+(* beyond the statement: a {word} of letters that is not a known name is deleted
+   (`expected1` gives it the empty string); Fmt("use {braces} here") = "use  here" *)
+Theorem C20_fmt_words : forall ps,
+  lits_ok no_open ps -> Forall word_or_known ps -> fmt (render ps) = expected ps.
+Proof. exact fmt_pieces_words. Qed.
+Print Assumptions C20_fmt_words.
 
 (* ---- TrimFmt: for EVERY iteration order of the two maps, exactly the lower-case {name}
    tokens are removed.  `trim_expected` keeps the literals, the tokens whose name is not,
